@@ -10,4 +10,6 @@ go build -o "$ROOT/.build/setup/instrument" ./instrument || exit 1
 for d in checks/*/; do
   go build -overlay "$ROOT/.build/setup/ov/overlay.json" -o /dev/null "./$d" || exit 1
 done
+# the separate free-running pass is built with the race detector
+go build -race -overlay "$ROOT/.build/setup/ov/overlay.json" -o /dev/null ./checks/racepass || exit 1
 echo setup ok
